@@ -15,6 +15,7 @@ import (
 	"github.com/evolbioinfo/goalign/align"
 	"github.com/evolbioinfo/goalign/distance/protein"
 	pm "github.com/evolbioinfo/goalign/models/protein"
+	"gonum.org/v1/gonum/mat"
 	"pgregory.net/rapid"
 	"verif/internal/cli"
 	"verif/internal/gen"
@@ -974,6 +975,67 @@ type reuseCase struct {
 	Alis    []gen.Ali   `json:"alis"`
 	Weights [][]float64 `json:"weights"` // per alignment: nil or positive weights (distboot -c)
 	Cfg     config      `json:"cfg"`
+	// JC, per alignment (absent = none): 1 = the exported JC69Dist is also called on the same model object
+	// BEFORE MLDist of this alignment, 2 = AFTER it. Its three returned matrices join the retained ones.
+	JC []int `json:"jc,omitempty"`
+}
+
+// retained: a matrix handed to the caller by one call on the model object, with the deep copy taken at
+// return time. A caller (bootstrap loop, all the alignments of a file) keeps the matrices of successive
+// calls: the matrix of an alignment must still be the matrix of THAT alignment after every later call
+// on the same model object, whatever the number of sequences of the later alignments.
+type retained struct {
+	what string
+	call int
+	m    *mat.Dense
+	copy []uint64
+	n    int
+}
+
+func retain(what string, call int, m *mat.Dense) retained {
+	r := retained{what: what, call: call, m: m}
+	if m == nil {
+		return r
+	}
+	rows, cols := m.Dims()
+	r.n = rows
+	for i := 0; i < rows; i++ {
+		for j := 0; j < cols; j++ {
+			r.copy = append(r.copy, math.Float64bits(m.At(i, j)))
+		}
+	}
+	return r
+}
+
+func (r retained) unchanged(ncalls int) error {
+	if r.m == nil {
+		return nil
+	}
+	rows, cols := r.m.Dims()
+	if rows*cols != len(r.copy) {
+		return fmt.Errorf("%s returned by call %d of %d on one model object: %dx%d after the later calls, %d cells when it was returned", r.what, r.call, ncalls, rows, cols, len(r.copy))
+	}
+	for i := 0; i < rows; i++ {
+		for j := 0; j < cols; j++ {
+			if b := math.Float64bits(r.m.At(i, j)); b != r.copy[i*cols+j] {
+				return fmt.Errorf("%s returned by call %d of %d on one model object (%d sequences): cell [%d][%d] was %.17g when the call returned and is %.17g after the later calls on the same object (the caller's matrix is overwritten)", r.what, r.call, ncalls, r.n, i, j, math.Float64frombits(r.copy[i*cols+j]), r.m.At(i, j))
+			}
+		}
+	}
+	return nil
+}
+
+// jc69On: the exported JC69Dist on model object m, with the arguments MLDist gives it (explicit weights,
+// the selected sites under the complete-deletion reading)
+func jc69On(m *protein.ProtDistModel, a gen.Ali, cfg config, weights []float64) (p, q, d *mat.Dense) {
+	w := make([]float64, a.Length())
+	for i := range w {
+		w[i] = 1
+		if weights != nil {
+			w[i] = weights[i]
+		}
+	}
+	return m.JC69Dist(gen.MustBuild(a), w, selectedSites(a, cfg.RmGaps, true))
 }
 
 // resample: bootstrap-like replicate of a (columns drawn with replacement): same dimensions and
@@ -999,7 +1061,7 @@ func resample(t *rapid.T, a gen.Ali) gen.Ali {
 func genAlis(t *rapid.T, maxRows int) []gen.Ali {
 	first := genAli(t, 2, maxRows)
 	alis := []gen.Ali{first}
-	k := rapid.IntRange(2, 3).Draw(t, "nali")
+	k := rapid.IntRange(2, 4).Draw(t, "nali")
 	for len(alis) < k {
 		prev := alis[len(alis)-1]
 		switch rapid.IntRange(0, 5).Draw(t, "next") {
@@ -1036,6 +1098,13 @@ func genReuse(t *rapid.T) reuseCase {
 			c.Weights[i] = genWeights(t, a.Length())
 		}
 	}
+	// the sibling JC69Dist (exported, same work matrices) now and then between the MLDist calls
+	if rapid.IntRange(0, 2).Draw(t, "withjc") == 0 {
+		c.JC = make([]int, len(c.Alis))
+		for i := range c.JC {
+			c.JC[i] = rapid.IntRange(0, 2).Draw(t, "jc")
+		}
+	}
 	return c
 }
 
@@ -1061,9 +1130,41 @@ func denseToRows(d interface {
 }
 
 func checkReuse(c reuseCase) (o pbt.Outcome, err error) {
-	if len(c.Alis) < 2 || len(c.Weights) != len(c.Alis) {
+	if len(c.Alis) < 2 || len(c.Weights) != len(c.Alis) || (c.JC != nil && len(c.JC) != len(c.Alis)) {
 		o.Skip = true
 		return o, nil
+	}
+	var kept []retained
+	ncalls := 0
+	earlierJudged := false
+	// jcCall: JC69Dist on the re-used object; bit-for-bit the matrices of an object that has seen nothing else
+	jcCall := func(m *protein.ProtDistModel, i int, a gen.Ali, w []float64) error {
+		ncalls++
+		p, q, d := jc69On(m, a, c.Cfg, w)
+		fm, e := protein.NewProtDistModel(modelCode(c.Cfg.Model), c.Cfg.ModelFreqs, c.Cfg.Gamma, c.Cfg.Alpha, c.Cfg.RmGaps)
+		if e != nil {
+			return fmt.Errorf("NewProtDistModel: %v", e)
+		}
+		fp, fq, fd := jc69On(fm, a, c.Cfg, w)
+		for k, pr := range [][2]*mat.Dense{{p, fp}, {q, fq}, {d, fd}} {
+			name := []string{"p", "q", "dist"}[k]
+			if pr[0] == nil || pr[1] == nil {
+				return fmt.Errorf("JC69Dist, alignment %d: nil %s matrix", i+1, name)
+			}
+			got, want := retain(name, ncalls, pr[0]), retain(name, ncalls, pr[1])
+			if got.n != len(a.Rows) || len(got.copy) != len(want.copy) {
+				return fmt.Errorf("JC69Dist, alignment %d of %d (%d sequences) on a model object already used: %s has %d rows, %d cells, a fresh object gives %d cells", i+1, len(c.Alis), len(a.Rows), name, got.n, len(got.copy), len(want.copy))
+			}
+			for x := range got.copy {
+				if got.copy[x] != want.copy[x] {
+					return fmt.Errorf("JC69Dist, alignment %d of %d on a model object already used: %s cell %d = %.17g, %.17g through a fresh object", i+1, len(c.Alis), name, x, math.Float64frombits(got.copy[x]), math.Float64frombits(want.copy[x]))
+				}
+			}
+			got.what = "JC69Dist " + name + " matrix of alignment " + fmt.Sprint(i+1)
+			kept = append(kept, got)
+		}
+		o.Class("JC69Dist between the MLDist calls")
+		return nil
 	}
 	for i, a := range c.Alis {
 		if !domainOK(a, c.Cfg, c.Weights[i]) {
@@ -1097,9 +1198,23 @@ func checkReuse(c reuseCase) (o pbt.Outcome, err error) {
 				history = true
 			}
 		}
-		_, _, dm, e := m.MLDist(gen.MustBuild(a), w)
+		if c.JC != nil && c.JC[i] == 1 {
+			if e = jcCall(m, i, a, w); e != nil {
+				return o, e
+			}
+		}
+		ncalls++
+		pm, qm, dm, e := m.MLDist(gen.MustBuild(a), w)
 		if e != nil {
 			return o, fmt.Errorf("alignment %d of %d through one model object: %v", i+1, len(c.Alis), e)
+		}
+		kept = append(kept, retain(fmt.Sprintf("MLDist p matrix of alignment %d", i+1), ncalls, pm),
+			retain(fmt.Sprintf("MLDist q matrix of alignment %d", i+1), ncalls, qm),
+			retain(fmt.Sprintf("MLDist distance matrix of alignment %d", i+1), ncalls, dm))
+		if c.JC != nil && c.JC[i] == 2 {
+			if e = jcCall(m, i, a, w); e != nil {
+				return o, e
+			}
 		}
 		d, e := denseToRows(dm, len(a.Rows))
 		if e != nil {
@@ -1122,6 +1237,16 @@ func checkReuse(c reuseCase) (o pbt.Outcome, err error) {
 				}
 			}
 		}
+		if i > 0 && earlierJudged {
+			history = true // a matrix judged non-trivially is retained across this later call
+		}
+		earlierJudged = earlierJudged || v.nonTrivial
+		for k := 0; k < i; k++ {
+			if len(c.Alis[k].Rows) == len(a.Rows) {
+				o.Class("same number of sequences as an earlier call")
+				break
+			}
+		}
 		if i > 0 {
 			prev := c.Alis[i-1]
 			if prev.Length() == a.Length() {
@@ -1141,6 +1266,13 @@ func checkReuse(c reuseCase) (o pbt.Outcome, err error) {
 			}
 		}
 	}
+	// every matrix handed out, after all the later calls, against the copy taken when it was returned
+	for _, r := range kept {
+		if e := r.unchanged(ncalls); e != nil {
+			return o, e
+		}
+	}
+	o.Class("calls on one model object: %d", ncalls)
 	o.NonTrivial = history
 	classes(&o, c.Cfg, c.Weights[0] != nil)
 	return o, nil
